@@ -4,7 +4,7 @@ import vlib
 
 def run(ctx):
     small = vlib.tlc_model_check(ctx, "MCElastic", "Elastic_small.cfg" if ctx.thorough else "Elastic_quick.cfg", dump="g", timeout=1500)
-    real = vlib.tlc_model_check(ctx, "MCElastic", "Elastic_real.cfg", dump="g", timeout=900)
+    real = vlib.tlc_model_check(ctx, "MCElastic", "Elastic_real4.cfg" if ctx.thorough else "Elastic_real.cfg", dump="g", timeout=1800)
     rep = vlib.go_harness(ctx, "pkg/buffer/elastic", "TestVerifElasticCover", name="cover-small",
                           env={"VERIF_GRAPH": small["dot"], "VERIF_SCALE": 256}, timeout=1500)
     vlib.absorb(ctx, rep, "cover-small")
